@@ -295,7 +295,7 @@ impl<'a> LaxPacketHeaders<'a> {
                         Ok(value) => value,
                         Err(err) => {
                             result.stop_err = Some((
-                                Len(err.add_offset(slice.len() - rest.len())),
+                                Len(err.add_offset(offset)),
                                 Layer::VlanHeader,
                             ));
                             return result;
@@ -331,7 +331,7 @@ impl<'a> LaxPacketHeaders<'a> {
                             result.stop_err = Some(match err {
                                 H::Content(c) => (Macsec(c), Layer::MacsecHeader),
                                 H::Len(l) => (
-                                    Len(l.add_offset(slice.len() - rest.len())),
+                                    Len(l.add_offset(offset)),
                                     Layer::MacsecHeader,
                                 ),
                             });
